@@ -287,7 +287,10 @@ def checkStep (st : St) (op impl : List String) (pre post : Obs) : St × List St
         -- a stream named in a reset request may be deleted again by the pop loop of this very chunk
         let missingAll := listed.filter fun si => !post.reg.contains si
         let missing := missingAll.filter fun si => !st.resetIds.contains si
-        if !serialLT post.cum c then
+        -- exactly 2^31 ahead the chunk is not stale, yet advanceCumulativeTSN does not move: the cumulative point cannot tell
+        -- whether it was taken; there it counts as dropped exactly when a drop is justified (missing stream, full backlog)
+        let taken := if serialLT pre.cum c then !serialLT post.cum c else !(!missingAll.isEmpty && post.accq ≥ 16)
+        if taken then
           -- taken: the cumulative point moved; then every listed stream must exist, or its skip is lost (D23)
           st := { st with g := st.g.skip (BitVec.ofNat 32 c) }
           if serialLT st.hi c then st := { st with hi := c }
